@@ -8,7 +8,7 @@ STATUSES = [200, 400, 404, 408, 429, 500, 505, 520]
 def run(chk):
     quick = chk.tier == "quick"
     chk.rule = ("random allow-lists (0-6 peers of 8) and request lists (sender listed / unlisted / absent), and closure authorizers "
-                "returning arbitrary (status, body) refusals or accepting while mutating the request; run sequentially and from 2-8 threads "
+                "returning arbitrary (status, body) refusals or accepting while mutating the request; a quarter of the allow-list cases stack two allow-list layers with different lists; run sequentially and from 2-8 threads "
                 "through clones; distinct = case text; non-trivial = the request list contains both accepted and refused requests")
     if not chk.prepare():
         return
@@ -21,7 +21,12 @@ def run(chk):
         if rng.random() < 0.5:
             allow = sorted(rng.sample(range(8), rng.randrange(0, 7)))
             reqs = [rng.choice(["n"] + ["s%d" % p for p in range(8)] + ["s%d" % p for p in allow]) for _ in range(k)]
-            cases.append("authallow %s %d %s" % (",".join(map(str, allow)) or "-", threads, " ".join(reqs)))
+            if rng.random() < 0.25:
+                # two allow-list layers stacked (a broad one outside, another one inside): a request passes iff both list its sender
+                outer = sorted(rng.sample(range(8), rng.randrange(0, 8)))
+                cases.append("authallow2 %s %s %d %s" % (",".join(map(str, outer)) or "-", ",".join(map(str, allow)) or "-", threads, " ".join(reqs)))
+            else:
+                cases.append("authallow %s %d %s" % (",".join(map(str, allow)) or "-", threads, " ".join(reqs)))
         else:
             reqs = []
             for _ in range(k):
@@ -31,11 +36,20 @@ def run(chk):
                     reqs.append("d%d:%s" % (rng.choice(STATUSES), rng.choice(["0", "nope", "x", "denied-%d" % rng.randrange(100)])))
             cases.append("authfn %d %s" % (threads, " ".join(reqs)))
     ci = run_impl("layers", cases)
-    cm = run_model(cases)
+    # stacked allow-lists: the model is the single layer with the intersection of the two lists
+    def single(c):
+        t = c.split()
+        if t[0] != "authallow2":
+            return c
+        both = sorted(set(t[1].split(",")) & set(t[2].split(",")) - {"-"}, key=int)
+        return "authallow %s %s" % (",".join(both) or "-", " ".join(t[3:]))
+    cm = run_model([single(c) for c in cases])
     for c, a, b in zip(cases, ci, cm):
         chk.evaluations += 1
         t = c.split()
         chk.count(t[0])
+        if t[0] == "authallow2":
+            t = single(c).split()
         if a.startswith(("PANIC", "CRASH", "TIMEOUT", "HANG")):
             chk.monitor_fail("auth layer panicked", dict(case=c, impl=a))
             continue
